@@ -18,6 +18,9 @@ const (
 	hOK               // recording handler, writes status of the error and a body naming the app
 	hFailPlain        // recording handler that sets a status and then fails with errors.New
 	hFailFiber        // recording handler that fails with a *fiber.Error(503)
+	// fiber.DefaultErrorHandler named explicitly in the app's Config (directly, or through a
+	// Config() copied from a handler-less app): a configured handler that is not recording
+	hExplicitDefault
 )
 
 // Scripted raise positions.
@@ -38,7 +41,7 @@ const (
 )
 
 var kindNames = [...]string{"fiber-error", "fiber-error-msg", "plain-error", "wrapped-fiber-error", "predeclared-fiber-error"}
-var handlerNames = [...]string{"none", "ok", "fail-plain", "fail-fiber-error"}
+var handlerNames = [...]string{"none", "ok", "fail-plain", "fail-fiber-error", "explicit-default"}
 var posNames = [...]string{"none", "mw-pre", "mw-post", "endpoint"}
 
 var predecl = []*fiber.Error{
@@ -57,8 +60,26 @@ type appSpec struct {
 	Level    int    `json:"level"`
 	Handler  int    `json:"handler"`
 	Mw       bool   `json:"mw"`
-	RootEp   bool   `json:"root_ep"`   // also registers GET "/"
-	ViaGroup bool   `json:"via_group"` // mounted through parent.Group(first).Use(rest, sub)
+	RootEp   bool   `json:"root_ep"`            // also registers GET "/"
+	ViaGroup bool   `json:"via_group"`          // mounted through parent.Group(first).Use(rest, sub)
+	CfgCopy  bool   `json:"cfg_copy,omitempty"` // hExplicitDefault through fiber.New(other.Config())
+}
+
+// extraMount mounts the app instance App a second time: into Parent under Rel. Early: right
+// after the instance's first mount (so before its nested apps are mounted when the tree is
+// built outer-first); otherwise after everything else.
+type extraMount struct {
+	App    int    `json:"app"`
+	Parent int    `json:"parent"`
+	Rel    string `json:"rel"`
+	Early  bool   `json:"early"`
+}
+
+// place is one absolute mount place of an app instance.
+type place struct {
+	App   int
+	Full  string
+	Level int
 }
 
 type treeSpec struct {
@@ -73,6 +94,11 @@ type treeSpec struct {
 	// registration steps (middleware, routes, mounts) of the construction, i.e. the tree is
 	// built incrementally around a first start-up. -1: built completely before the first start.
 	StartAt int `json:"start_at"`
+	// Extra mounts of app instances that are already mounted somewhere (same instance under two
+	// prefixes or in two parents); their nested apps are reachable below every place.
+	Extra []extraMount `json:"extra,omitempty"`
+
+	pl [][]place // cache of places(); reset by cloneTree
 }
 
 type customCtx struct {
@@ -127,38 +153,99 @@ func depth(p string) int {
 	return strings.Count(p, "/")
 }
 
-// expected returns the app whose error handler the property selects (0 = root).
-func (ts *treeSpec) expected(path string, fold bool) int {
-	best, bd, bl := 0, -1, -1
+// places lists, per app instance, every absolute place it is mounted at (the primary place
+// first). The root has the single place "".
+func (ts *treeSpec) places() [][]place {
+	if ts.pl != nil {
+		return ts.pl
+	}
+	n := len(ts.Apps)
+	type edge struct {
+		parent int
+		rel    string
+	}
+	in := make([][]edge, n)
+	for i := 1; i < n; i++ {
+		in[i] = append(in[i], edge{ts.Apps[i].Parent, ts.Apps[i].Rel})
+	}
+	for _, x := range ts.Extra {
+		in[x.App] = append(in[x.App], edge{x.Parent, x.Rel})
+	}
+	pl := make([][]place, n)
+	done := make([]bool, n)
+	pl[0], done[0] = []place{{0, "", 0}}, true
+	var rec func(i, guard int) []place
+	rec = func(i, guard int) []place {
+		if done[i] || guard > n {
+			return pl[i]
+		}
+		done[i] = true
+		var out []place
+		for _, ed := range in[i] {
+			for _, pp := range rec(ed.parent, guard+1) {
+				out = append(out, place{i, joinPrefix(pp.Full, ed.rel), pp.Level + 1})
+			}
+		}
+		pl[i] = out
+		return out
+	}
+	for i := 1; i < n; i++ {
+		rec(i, 0)
+	}
+	ts.pl = pl
+	return pl
+}
+
+func (ts *treeSpec) configured(i int) bool { return ts.Apps[i].Handler != hNone }
+
+// records: the app's handler is one of the recording ones.
+func (ts *treeSpec) records(i int) bool {
+	h := ts.Apps[i].Handler
+	return h != hNone && h != hExplicitDefault
+}
+
+// expectedPlace returns the app whose error handler the property selects (0 = root) and the
+// mount place that makes it the innermost.
+func (ts *treeSpec) expectedPlace(path string, fold bool) (int, place) {
+	best, bp := 0, place{0, "", 0}
+	bd, bl := -1, -1
 	if fold {
 		path = strings.ToLower(path)
 	}
-	for i := 1; i < len(ts.Apps); i++ {
-		a := &ts.Apps[i]
-		if a.Handler == hNone {
+	for i, pls := range ts.places() {
+		if i == 0 || !ts.configured(i) {
 			continue
 		}
-		p := a.Full
-		if fold {
-			p = strings.ToLower(p)
-		}
-		if !contains(p, path) {
-			continue
-		}
-		d := depth(p)
-		if d > bd || (d == bd && a.Level > bl) {
-			best, bd, bl = i, d, a.Level
+		for _, pc := range pls {
+			p := pc.Full
+			if fold {
+				p = strings.ToLower(p)
+			}
+			if !contains(p, path) {
+				continue
+			}
+			d := depth(p)
+			if d > bd || (d == bd && pc.Level > bl) {
+				best, bp, bd, bl = i, pc, d, pc.Level
+			}
 		}
 	}
-	return best
+	return best, bp
 }
 
-// stringPrefixCandidates counts mounted apps whose prefix is a plain string prefix of path.
+func (ts *treeSpec) expected(path string, fold bool) int {
+	e, _ := ts.expectedPlace(path, fold)
+	return e
+}
+
+// stringPrefixCandidates counts mount places whose prefix is a plain string prefix of path.
 func (ts *treeSpec) stringPrefixCandidates(path string) int {
 	n := 0
-	for i := 1; i < len(ts.Apps); i++ {
-		if strings.HasPrefix(path, ts.Apps[i].Full) {
-			n++
+	for i, pls := range ts.places() {
+		for _, pc := range pls {
+			if i > 0 && strings.HasPrefix(path, pc.Full) {
+				n++
+			}
 		}
 	}
 	return n
@@ -166,9 +253,17 @@ func (ts *treeSpec) stringPrefixCandidates(path string) int {
 
 func (ts *treeSpec) describe() string {
 	var sb strings.Builder
-	for i := 1; i < len(ts.Apps); i++ {
-		a := &ts.Apps[i]
-		fmt.Fprintf(&sb, "%s@%d:%s ", a.Full, a.Level, handlerNames[a.Handler])
+	for i, pls := range ts.places() {
+		for k, pc := range pls {
+			if i == 0 {
+				continue
+			}
+			fmt.Fprintf(&sb, "%s@%d:%s", pc.Full, pc.Level, handlerNames[ts.Apps[i].Handler])
+			if k > 0 {
+				sb.WriteString("(again)")
+			}
+			sb.WriteString(" ")
+		}
 	}
 	fmt.Fprintf(&sb, "root:%s", handlerNames[ts.Apps[0].Handler])
 	return sb.String()
@@ -314,11 +409,21 @@ func build(ts *treeSpec, rec *recorder) *fiber.App {
 	for i := range ts.Apps {
 		a := &ts.Apps[i]
 		cfg := fiber.Config{}
+		if a.Handler == hExplicitDefault && a.CfgCopy {
+			// the Config of a handler-less app carries the default handler New filled in
+			cfg = fiber.New().Config()
+		}
 		if i == 0 {
 			cfg.CaseSensitive = ts.CaseSensitive
 			cfg.StrictRouting = ts.Strict
 		}
-		if a.Handler != hNone {
+		switch a.Handler {
+		case hNone:
+		case hExplicitDefault:
+			if !a.CfgCopy {
+				cfg.ErrorHandler = fiber.DefaultErrorHandler
+			}
+		default:
 			cfg.ErrorHandler = rec.errHandler(i, a.Handler)
 		}
 		apps[i] = fiber.New(cfg)
@@ -351,7 +456,15 @@ func build(ts *treeSpec, rec *recorder) *fiber.App {
 		step()
 	}
 	mount := func(p, c int) {
-		defer step()
+		defer func() {
+			step()
+			for _, x := range ts.Extra {
+				if x.App == c && x.Early {
+					apps[x.Parent].Use(x.Rel, apps[c])
+					step()
+				}
+			}
+		}()
 		a := &ts.Apps[c]
 		if a.ViaGroup {
 			if k := strings.Index(a.Rel[1:], "/"); k >= 0 {
@@ -386,6 +499,12 @@ func build(ts *treeSpec, rec *recorder) *fiber.App {
 		}
 	}
 	setup(0)
+	for _, x := range ts.Extra {
+		if !x.Early {
+			apps[x.Parent].Use(x.Rel, apps[x.App])
+			step()
+		}
+	}
 	return apps[0]
 }
 
@@ -487,7 +606,99 @@ func genTree(r *gen.Rand) *treeSpec {
 	}
 	mixPrefixCase(ts)
 	pickStart(ts)
+	addExtraMounts(ts)
+	markExplicitDefault(ts)
 	return ts
+}
+
+// addExtraMounts mounts, in a fifth of the trees, one or two app instances a second time:
+// under another prefix of the root or inside another app (own generator, post-pass).
+func addExtraMounts(ts *treeSpec) {
+	cr := gen.New(gen.Hash64("extra-mounts", ts.describe()))
+	n := len(ts.Apps)
+	if n < 2 || !cr.Chance(1, 5) {
+		return
+	}
+	// subtree (through primary mounts and extras) and height of every instance
+	reach := func(a int) map[int]bool {
+		in := map[int]bool{a: true}
+		for changed := true; changed; {
+			changed = false
+			for i := 1; i < len(ts.Apps); i++ {
+				if in[ts.Apps[i].Parent] && !in[i] {
+					in[i], changed = true, true
+				}
+			}
+			for _, x := range ts.Extra {
+				if in[x.Parent] && !in[x.App] {
+					in[x.App], changed = true, true
+				}
+			}
+		}
+		return in
+	}
+	want := 1 + cr.Intn(2)
+	for tries := 0; len(ts.Extra) < want && tries < 12; tries++ {
+		a := 1 + cr.Intn(n-1)
+		// prefer instances that have nested apps
+		if tries < 6 {
+			has := false
+			for i := 1; i < n; i++ {
+				has = has || ts.Apps[i].Parent == a
+			}
+			if !has {
+				continue
+			}
+		}
+		if ts.Apps[a].Rel == "/" {
+			continue
+		}
+		sub := reach(a)
+		p := 0
+		if cr.Chance(1, 3) {
+			p = cr.Intn(n)
+		}
+		if sub[p] || (p != 0 && ts.Apps[p].Rel == "/") {
+			continue
+		}
+		x := extraMount{App: a, Parent: p, Rel: "/" + genSeg(cr, -1), Early: cr.Bool()}
+		ts.Extra = append(ts.Extra, x)
+		ts.pl = nil
+		ok := true
+		seen := map[string]bool{}
+		for i, pls := range ts.places() {
+			for _, pc := range pls {
+				if i == 0 || ts.Apps[i].Rel == "/" {
+					continue // a "/" child shares its parent's prefix by design
+				}
+				k := strings.ToLower(pc.Full)
+				if seen[k] || pc.Level > 3 {
+					ok = false
+				}
+				seen[k] = true
+			}
+		}
+		if !ok {
+			ts.Extra = ts.Extra[:len(ts.Extra)-1]
+			ts.pl = nil
+		}
+	}
+	if len(ts.Extra) > 0 {
+		// mounting after a first start-up is only generated for plain trees (see pickStart)
+		ts.StartAt = -1
+	}
+}
+
+// markExplicitDefault turns the handler dimension of some apps into its third value: the
+// default handler named explicitly (own generator, post-pass).
+func markExplicitDefault(ts *treeSpec) {
+	cr := gen.New(gen.Hash64("explicit-default", ts.describe()))
+	for i := range ts.Apps {
+		if cr.Chance(1, 8) {
+			ts.Apps[i].Handler = hExplicitDefault
+			ts.Apps[i].CfgCopy = cr.Bool()
+		}
+	}
 }
 
 // buildSteps is the number of registration steps build performs for the tree.
@@ -566,6 +777,7 @@ func mixPrefixCase(ts *treeSpec) {
 		}
 		a.Full = joinPrefix(ts.Apps[a.Parent].Full, a.Rel)
 	}
+	ts.pl = nil
 }
 
 func upper(c byte) byte {
@@ -617,6 +829,9 @@ func genReq(r *gen.Rand, ts *treeSpec) reqSpec {
 		t = 1 + r.Intn(n-1)
 	}
 	p := ts.Apps[t].Full
+	if pls := ts.places()[t]; len(pls) > 1 {
+		p = pls[r.Intn(len(pls))].Full
+	}
 	if p == "/" {
 		p = ""
 	}
